@@ -108,7 +108,7 @@ func c18Ctx(variant int) map[string]interface{} {
 		"arr": [3]int{3, 1, 2}, "parr": &[3]string{"c", "a", "b"},
 		"m":  map[string]interface{}{"b": 2, "a": 1, "nested": map[string]interface{}{"k": c18Spare(1, 2)}, "list": c18Spare("l1", "l2")},
 		"m2": map[string]interface{}{"c": 3, "a": 9},
-		"tm": map[string]string{"x": "1", "y": "2"}, "tmi": map[string]int{"one": 1, "two": 2}, "im": map[int]string{2: "two", 1: "one"},
+		"tm": map[string]string{"x": "1", "y": "2"}, "tmi": map[string]int{"one": 1, "two": 2}, "im": map[int]string{2: "two", 1: "one"}, "mii": map[interface{}]interface{}{7: "seven", "k": "v", 2.5: c18Spare(1)},
 		"nest": c18Spare(c18Spare(2, 1), c18Spare("d", "c"), map[string]interface{}{"q": c18Spare(1)}),
 		"st":   c18Struct{Name: "s", Items: c18Spare(2, 1), Tags: c18SpareStr("t2", "t1"), Meta: map[string]interface{}{"k": "v"}, Ptr: inner, priv: []int{1, 2}},
 		"pst":  &c18Struct{Name: "ps", Items: c18Spare("b", "a"), Tags: c18SpareStr("u2", "u1"), Meta: map[string]interface{}{"k": c18Spare(1)}, Ptr: inner},
@@ -222,8 +222,8 @@ func c18Snapshot(ctx map[string]interface{}) map[string]string {
 	return out
 }
 
-var c18Vars = []string{"xs", "ys", "empty", "ss", "is", "fs", "arr", "parr", "m", "m2", "tm", "tmi", "im", "nest", "st.Items", "st.Tags", "pst.Items", "st.Meta", "pst.Meta.k", "pn.List", "m.list", "m.nested.k", "nest[0]", "s"}
-var c18Filters = []string{"sort", "reverse", "merge(ys)", "merge(xs)", "merge(m2)", "merge([9, 8])", "merge({'z': 1})", "slice(1, 2)", "slice(0, 1)", "slice(-2)", "slice(1)", "keys", "default([1])", "first", "last", "length", "join(',')", "json_encode", "upper", "lower",
+var c18Vars = []string{"xs", "ys", "empty", "ss", "is", "fs", "arr", "parr", "m", "m2", "tm", "tmi", "im", "mii", "nest", "st.Items", "st.Tags", "pst.Items", "st.Meta", "pst.Meta.k", "pn.List", "m.list", "m.nested.k", "nest[0]", "s"}
+var c18Filters = []string{"sort", "reverse", "merge(ys)", "merge(xs)", "merge(m2)", "merge([9, 8])", "merge({'z': 1})", "merge(%W)", "merge(%W)", "merge(%W)", "default(%W)", "replace(%W)", "slice(0, 2)|merge(%W)", "keys|merge(%W)", "merge(%W)|sort", "slice(1, 2)", "slice(0, 1)", "slice(-2)", "slice(1)", "keys", "default([1])", "first", "last", "length", "join(',')", "json_encode", "upper", "lower",
 	"capitalize", "title", "trim", "split(' ')", "replace('a', 'b')", "abs", "round", "number_format(1)", "escape", "raw", "striptags", "nl2br", "url_encode", "format(1)", "date('Y')", "spaceless", "count"}
 
 func c18Templates(r *core.Rand) (map[string]string, bool) {
@@ -231,6 +231,9 @@ func c18Templates(r *core.Rand) (map[string]string, bool) {
 	f1 := c18Filters[r.Intn(len(c18Filters))]
 	f2 := c18Filters[r.Intn(len(c18Filters))]
 	w := c18Vars[r.Intn(len(c18Vars))]
+	// filter arguments drawn from the caller's data too (every variable, every key type)
+	f1 = strings.ReplaceAll(f1, "%W", c18Vars[r.Intn(len(c18Vars))])
+	f2 = strings.ReplaceAll(f2, "%W", c18Vars[r.Intn(len(c18Vars))])
 	srcs := map[string]string{"inc": "{% set got = got|default([])|merge([1]) %}{% set xs = [] %}{% for i in got %}{% set i = 0 %}{% endfor %}{{ got|sort|reverse|join }}{{ passed|sort|join }}",
 		"lib": "{% macro mut(a, b) %}{% set a = a|merge([7])|sort %}{% set b = b|reverse %}{{ a|join }}{{ b|join }}{% endmacro %}"}
 	var t string
